@@ -1,6 +1,7 @@
 package dagsync
 
 import (
+	"github.com/ipni/go-libipni/mautil"
 	"github.com/libp2p/go-libp2p/core/peer"
 	"github.com/multiformats/go-multiaddr"
 )
@@ -33,10 +34,20 @@ func VerifC03_RemoveIDFromAddrs() {
 		}
 		addrs = append(addrs, c03addr(w, 0xbb))
 	}
+	if verif_Bool("listHasNilEntry") {
+		// callers pass address lists with nil entries; the entry points clean them first
+		addrs = append([]multiaddr.Multiaddr{nil}, addrs...)
+	}
 	in := peer.AddrInfo{Addrs: addrs}
 	if given {
 		in.ID = a
 	}
+	in = mautil.CleanPeerAddrInfo(in) // as SyncAdChain, syncEntries and NewSyncer do first
+	wantID := peer.ID("")
+	if given {
+		wantID = a
+	}
+	verif_Assert(in.ID == wantID, "cleaning the address list keeps the publisher ID the caller gave")
 	out, err := removeIDFromAddrs(in)
 	verif_Reach("returned")
 	if err == nil {
